@@ -554,6 +554,25 @@ func runC20(c *Ctx) {
 				continue
 			}
 			c.Analysed(fnName(f))
+			// the kind dispatch may have been split off into an unexported helper: take the function, among f and
+			// the same-package helpers it calls, that holds the type switch (most comma-ok assertions to Value_ kinds)
+			countArms := func(g *ssa.Function) int {
+				n := 0
+				instrs(g, func(in ssa.Instruction) {
+					if ta, ok := in.(*ssa.TypeAssert); ok && ta.CommaOk && strings.Contains(types.TypeString(ta.AssertedType, nil), "Value_") {
+						n++
+					}
+				})
+				return n
+			}
+			root := f
+			disp := f
+			for _, ci := range callsIn(f) {
+				if g := staticCallee(ci.Common()); g != nil && g.Pkg == f.Pkg && !isExportedFn(g) && len(g.Blocks) > 0 && countArms(g) > countArms(disp) {
+					disp = g
+				}
+			}
+			f = disp
 			handled := map[string]bool{}
 			instrs(f, func(in ssa.Instruction) {
 				if ta, ok := in.(*ssa.TypeAssert); ok && ta.CommaOk {
@@ -615,7 +634,7 @@ func runC20(c *Ctx) {
 			if f.Signature.Results().Len() == 2 && !errPath {
 				okDef = false // no exhausted path reports an error
 			}
-			c.Check(len(missing) == 0 && okDef, "C20.kinds", fnName(f), "covers its value kinds, explicit default", P.Pos(f.Pos()), fmt.Sprintf("handled %d kinds, missing %v, explicit default=%v", len(handled), missing, okDef))
+			c.Check(len(missing) == 0 && okDef, "C20.kinds", fnName(root), "covers its value kinds, explicit default", P.Pos(f.Pos()), fmt.Sprintf("handled %d kinds, missing %v, explicit default=%v (dispatch in %s)", len(handled), missing, okDef, fnName(f)))
 		}
 	}
 }
